@@ -295,14 +295,24 @@ fn check_clear_new(t: &mut Tape, ctx: &Ctx) -> Outcome {
     if use_new {
         h.line("LIST", &mut o);
         let l = flat(&h.take());
-        h.line("RUN", &mut o);
-        let r = flat(&h.take());
-        if !l.is_empty() || !r.is_empty() {
-            return Outcome::fail("new-left-a-program", format!("after NEW, LIST printed {:?} and RUN printed {:?}", l, r), case);
+        if !l.is_empty() {
+            return Outcome::fail("new-left-a-program", format!("after NEW, LIST printed {:?}", l), case);
         }
         if !h.listing_text().is_empty() {
             return Outcome::fail("new-left-a-program", format!("get_listing() still has {:?}", h.listing_text()), case);
         }
+        if t.chance(1, 2) {
+            // RUN of the empty program prints nothing (it also resets, so only half of the cases do it)
+            h.line("RUN", &mut o);
+            let r = flat(&h.take());
+            if !r.is_empty() {
+                return Outcome::fail("new-left-a-program", format!("after NEW, RUN printed {:?}", r), case);
+            }
+        }
+        // a new program typed after NEW starts from scratch: its DATA is read from the first constant
+        let fresh_prog = vec!["1 DATA 11,\"NEWDATA\",33,44".to_string(), "2 DEF FNA(X)=X+1000".to_string()];
+        type_in(&mut h, &fresh_prog);
+        type_in(&mut f, &fresh_prog);
     } else {
         type_in(&mut f, &texts);
     }
@@ -327,7 +337,7 @@ pub fn property() -> Property {
         id: "C12",
         rule: "Cases: a proptest-generated listing P and a session prefix of 1-6 steps: earlier runs of P with other replies that end normally, in an error, at STOP, or are interrupted after k calls; direct statements assigning P's variables, loop and fuel counters, DIM of P's arrays, DEFINT/STR/DBL/SNG, partial READs, FOR without NEXT (nested), direct GOSUB into P's subroutines, RND(-k), ERASE; \
 in a third of the cases the interpreter first held a different program that was run and then replaced (NEW + retype, or line-by-line deletion). (run) then RUN or RUN n: transcript and final variables must equal those in a fresh interpreter holding P. \
-(clear_new) then CLEAR (also with ignored options) or NEW, followed by a probe battery (print every name, DIM every array again, store 1.5 into A / S / X / Z to expose DEFtype leftovers, READ, RETURN, NEXT, NEXT I, CONT, FNx calls): identical to a fresh interpreter holding P (resp. an empty one); after NEW, LIST and RUN print nothing. \
+(clear_new) then CLEAR (also with ignored options) or NEW, followed by a probe battery (print every name, DIM every array again, store 1.5 into A / S / X / Z to expose DEFtype leftovers, READ, RETURN, NEXT, NEXT I, CONT, FNx calls): identical to a fresh interpreter holding P (resp. an empty one); after NEW, LIST and RUN print nothing and a small program with DATA typed afterwards is read from its first constant without an intervening RUN. \
 Non-trivial: the prefix left at least one of: non-default variables, a DEFtype, a DIM, pending frames, an advanced DATA pointer, an interrupted/failed run. Distinct by listing + prefix.",
         assumptions: vec!["differential oracle: a reset defect shared with the fresh interpreter cannot exist by definition; TRON is not part of the reset list and is never left on by a prefix", "RND is only reseeded, never read (its values are not deterministic after RUN/CLEAR)"],
         subs: vec![Sub::tape("run_after_prefix", check_run, 30_000, 1_000_000, 1600), Sub::tape("clear_new_battery", check_clear_new, 30_000, 1_000_000, 1400)],
